@@ -184,6 +184,25 @@ def run_job(job, findings_open):
                                            seconds=round(secs, 3), assumptions_in_slice=len(cons),
                                            negated_claim=txt if len(txt) < 600 else txt[:600] + " ...",
                                            path_condition_size=len(c.pc), definitions=len(c.defs)))
+            if verdict == "unknown" and not split:
+                # The solver could not decide.  Before reporting 'inconclusive', look for a counterexample by running the
+                # real code on a few concrete inputs that satisfy the harness assumptions; a failure found this way is a
+                # genuine, replayed violation (an 'unknown' is never turned into a pass).
+                for attempt in range(job.opts.get("concrete_search", 12)):
+                    vals = c.random_inputs(attempt)
+                    try:
+                        conc = run_concrete(func, job.params, vals, max(job.tol, 1e-5))
+                    except PreconditionFailed:
+                        continue
+                    except Exception:  # noqa
+                        continue
+                    if conc.get(ob.name) is False:
+                        r["unknown"] -= 1
+                        r["sat"] += 1
+                        res["cex"].append(dict(job=job.key(), obligation=ob.name, path=pidx, inputs=vals, reproduced=True, finding=None,
+                                               detail="solver undecided; counterexample found by concrete search and replayed",
+                                               concrete={k: v for k, v in conc.items() if v is not True}))
+                        break
             if verdict == "sat":
                 st = handle_cex(c, ob, z3.Not(claim), pidx, finding=None, known=model)
                 if st != "sat":
